@@ -394,7 +394,7 @@ def run(ctx):
         return
     per_mode = 60 if ctx.quick else 500
     if ctx.broken:
-        per_mode *= 10   # search mode: a proof obligation broke, look harder for a failing input
+        per_mode *= 4    # search mode: a proof obligation broke, look harder for a failing input
     stats = {k: 0 for k in ["zero_insert", "insert_across_cons", "resize_into_stale", "clear_with_elements", "move_same",
                             "move_cross", "metadata_roundtrip", "reuse_rounds_checked", "manager_converged_rounds_checked",
                             "string_metadata_roundtrip"]}
@@ -403,6 +403,8 @@ def run(ctx):
     distinct = set()
     sample = None
     for mode in MODES:
+        if len(ctx.failing) >= 3 or dist["divergences"] >= 6:
+            break        # enough concrete evidence; do not spend the budget on more of the same
         cases = load_corpus(mode)
         ncorp = len(cases)
         for k in range(per_mode):
@@ -445,7 +447,7 @@ def run(ctx):
                     return rc != 0 or any("!ORACLE" in l for l in io)
                 mo, _, _ = ctx.run_lines(drv, ["reset"] + cand, [mode])
                 return len(io) != len(mo) or any(not same(x, y) for x, y in zip(io, mo))
-            small = ctx.shrink(case[:li + 1], still)
+            small = ctx.shrink(case[:li + 1], still, budget=150)
             io, rc, err = ctx.run_lines(exe, ["reset"] + small, [mode])
             mo, _, _ = ctx.run_lines(drv, ["reset"] + small, [mode])
             text = "mode=%s\n%s\n# implementation output:\n%s\n# model output:\n%s\n%s" % (
@@ -462,7 +464,7 @@ def run(ctx):
             else:
                 dist["divergences"] += 1
                 ctx.broke("correspondence", "E-SEQ c12 mode=%s" % mode, "first difference at op %r: impl %r, model %r; minimised case:\n%s" % (op, a[:300], b[:300], text))
-            if dist["oracle_failures"] + dist["divergences"] >= 8:
+            if len(seen_keys) >= 2 or dist["oracle_failures"] + dist["divergences"] >= 8:
                 break
         if ncorp:
             ctx.notes.append("corpus cases run first for mode %s: %d" % (mode, ncorp))
